@@ -114,6 +114,22 @@ def check_case(ctx, cell, case):
     compare("extract_message", lambda: enc.extract_message(cw), "C04.b_extract")
     if hasattr(enc, "project_word"):
         compare("project_word", lambda: enc.project_word(cw), "C04.c_project")
+    # the same messages in other dtypes: values (as numbers) must not change
+    if layout[0] in ("B", "multi") and M.size <= 256:
+        for dt in (torch.float64, torch.int64):
+            try:
+                with __import__("kverif.core", fromlist=["quiet"]).quiet():
+                    cwd = enc(torch.from_numpy(M.copy()).to(dt))
+                    back = enc.inverse_encode(cwd)
+            except Exception:
+                ctx.cls("dtype_rejected_" + str(dt).split(".")[-1])
+                continue
+            back = back[0] if isinstance(back, tuple) else back
+            ctx.ev()
+            okd = tuple(cwd.shape) == tuple(cw.shape) and np.array_equal(cwd.to(torch.float64).numpy(), cw.to(torch.float64).numpy())
+            ctx.check(okd, "C04.d_dtype_independent", cell, {**ccase, "dtype": str(dt)}, None, None, "encoding the same message in another dtype gives another codeword", CHK)
+            okb = tuple(back.shape) == M.shape and np.array_equal(back.to(torch.float64).numpy(), M.astype(np.float64))
+            ctx.check(okb, "C04.a_inverse", cell, {**ccase, "dtype": str(dt)}, None, None, "inverse_encode(encode(m)) != m for this dtype", CHK)
     if len(ctx.samples) < 2 and layout[0] != "all":
         ctx.sample({"cell": cell, "shape": list(M.shape), "n": n, "k": k})
 
